@@ -32,6 +32,7 @@ import (
 	"strings"
 
 	"google.golang.org/protobuf/proto"
+	"google.golang.org/protobuf/reflect/protoreflect"
 
 	"github.com/osrg/gobgp/v4/api"
 	"github.com/osrg/gobgp/v4/internal/pkg/table"
@@ -785,6 +786,126 @@ func path(arg string) string {
 	return "ok 1"
 }
 
+// ---- neighbour configuration through the running server: AddPeer, then ListPeer
+// every field set in the request (scalar, non-default) must be listed back with the same value
+func setFieldsDiffer(path string, in, out protoreflect.Message) string {
+	res := ""
+	in.Range(func(fd protoreflect.FieldDescriptor, v protoreflect.Value) bool {
+		name := path + "." + string(fd.Name())
+		switch {
+		case fd.IsList() || fd.IsMap():
+			return true
+		case fd.Kind() == protoreflect.MessageKind:
+			if !out.Has(fd) {
+				res = name + " missing"
+				return false
+			}
+			if r := setFieldsDiffer(name, v.Message(), out.Get(fd).Message()); r != "" {
+				res = r
+				return false
+			}
+		default:
+			if !out.Has(fd) || !v.Equal(out.Get(fd)) {
+				res = fmt.Sprintf("%s set=%v listed=%v", name, v.Interface(), out.Get(fd).Interface())
+				return false
+			}
+		}
+		return true
+	})
+	return res
+}
+
+func peerCase(seed int64) string {
+	rng := rand.New(rand.NewSource(seed))
+	pick := func(vs ...uint64) uint64 { return vs[rng.Intn(len(vs))] }
+	yes := func() bool { return rng.Intn(2) == 0 }
+	ibgp := rng.Intn(3) == 0
+	asn := uint32(65001 + rng.Intn(5))
+	if ibgp {
+		asn = 65000
+	}
+	addr := fmt.Sprintf("10.%d.%d.%d", 1+rng.Intn(200), rng.Intn(250), 1+rng.Intn(250))
+	p := &api.Peer{
+		Conf: &api.PeerConf{NeighborAddress: addr, PeerAsn: asn, Description: fmt.Sprintf("peer-%d", seed), AllowOwnAsn: uint32(pick(0, 1, 3)),
+			SendSoftwareVersion: yes(), AdminDown: rng.Intn(4) == 0},
+		Timers: &api.Timers{Config: &api.TimersConfig{ConnectRetry: pick(5, 30, 120), HoldTime: pick(9, 30, 90, 180), IdleHoldTimeAfterReset: pick(5, 30, 60),
+			MinimumAdvertisementInterval: pick(1, 5, 30)}},
+		Transport: &api.Transport{PassiveMode: true, RemotePort: uint32(pick(179, 1179, 20179)), TcpMss: uint32(pick(0, 536, 1400))},
+	}
+	p.Timers.Config.KeepaliveInterval = p.Timers.Config.HoldTime / 3
+	if rng.Intn(3) == 0 {
+		p.Conf.LocalAsn = uint32(pick(65100, 65200))
+	}
+	if !ibgp {
+		p.Conf.RemovePrivate = api.RemovePrivate(pick(0, 1, 2))
+		p.Conf.ReplacePeerAsn = yes()
+		switch rng.Intn(3) {
+		case 0:
+			p.EbgpMultihop = &api.EbgpMultihop{Enabled: true, MultihopTtl: uint32(pick(2, 5, 255))}
+		case 1:
+			p.TtlSecurity = &api.TtlSecurity{Enabled: true, TtlMin: uint32(pick(1, 200, 254))}
+		}
+	} else if yes() {
+		p.RouteReflector = &api.RouteReflector{RouteReflectorClient: true, RouteReflectorClusterId: fmt.Sprintf("9.9.9.%d", 1+rng.Intn(9))}
+	}
+	if rng.Intn(4) == 0 {
+		p.RouteServer = &api.RouteServer{RouteServerClient: true, SecondaryRoute: yes()}
+	}
+	if yes() {
+		p.GracefulRestart = &api.GracefulRestart{Enabled: true, RestartTime: uint32(pick(1, 30, 120, 4095)), HelperOnly: yes(), DeferralTime: uint32(pick(10, 360)),
+			NotificationEnabled: yes(), LonglivedEnabled: yes()}
+	}
+	fams := []*api.Family{{Afi: api.Family_AFI_IP, Safi: api.Family_SAFI_UNICAST}, {Afi: api.Family_AFI_IP6, Safi: api.Family_SAFI_UNICAST},
+		{Afi: api.Family_AFI_IP, Safi: api.Family_SAFI_MPLS_VPN}, {Afi: api.Family_AFI_L2VPN, Safi: api.Family_SAFI_EVPN}}
+	rng.Shuffle(len(fams), func(i, j int) { fams[i], fams[j] = fams[j], fams[i] })
+	for _, f := range fams[:1+rng.Intn(3)] {
+		a := &api.AfiSafi{Config: &api.AfiSafiConfig{Family: f, Enabled: true}}
+		if yes() {
+			a.AddPaths = &api.AddPaths{Config: &api.AddPathsConfig{Receive: yes(), SendMax: uint32(pick(0, 1, 4))}}
+		}
+		if yes() {
+			a.PrefixLimits = &api.PrefixLimit{Family: f, MaxPrefixes: uint32(pick(10, 1000)), ShutdownThresholdPct: uint32(pick(50, 80))}
+		}
+		if p.GracefulRestart != nil && yes() {
+			a.MpGracefulRestart = &api.MpGracefulRestart{Config: &api.MpGracefulRestartConfig{Enabled: true}}
+			if p.GracefulRestart.LonglivedEnabled && yes() {
+				a.LongLivedGracefulRestart = &api.LongLivedGracefulRestart{Config: &api.LongLivedGracefulRestartConfig{Enabled: true, RestartTime: uint32(pick(60, 3600))}}
+			}
+		}
+		p.AfiSafis = append(p.AfiSafis, a)
+	}
+	want := proto.Clone(p).(*api.Peer)
+	srv := theServer()
+	if err := srv.AddPeer(context.Background(), &api.AddPeerRequest{Peer: p}); err != nil {
+		return "rejected " + clean(err.Error())
+	}
+	defer srv.DeletePeer(context.Background(), &api.DeletePeerRequest{Address: addr})
+	var got *api.Peer
+	srv.ListPeer(context.Background(), &api.ListPeerRequest{Address: addr}, func(x *api.Peer) { got = x })
+	if got == nil {
+		return "fail peer-not-listed " + addr
+	}
+	if r := setFieldsDiffer("peer", want.ProtoReflect(), got.ProtoReflect()); r != "" {
+		return "fail peer-field " + strings.ReplaceAll(r, " ", "_")
+	}
+	// the address families with their options, matched by family
+	for _, a := range want.AfiSafis {
+		var g *api.AfiSafi
+		for _, x := range got.AfiSafis {
+			if x.Config != nil && proto.Equal(x.Config.Family, a.Config.Family) {
+				g = x
+			}
+		}
+		if g == nil {
+			return "fail family-not-listed " + a.Config.Family.String()
+		}
+		if r := setFieldsDiffer("afisafi["+strings.ReplaceAll(a.Config.Family.String(), " ", "")+"]", a.ProtoReflect(), g.ProtoReflect()); r != "" {
+			return "fail peer-field " + strings.ReplaceAll(r, " ", "_")
+		}
+	}
+	return "ok 1"
+}
+
 func run(line string) (out string) {
 	defer func() {
 		if r := recover(); r != nil {
@@ -824,6 +945,10 @@ func run(line string) (out string) {
 		return pol(arg)
 	case "path":
 		return path(arg)
+	case "peer":
+		var seed int64
+		fmt.Sscan(arg, &seed)
+		return peerCase(seed)
 	case "seeds":
 		var out []string
 		for _, m := range []*bgp.BGPMessage{bgp.NewTestBGPOpenMessage(), bgp.NewTestBGPUpdateMessage()} {
